@@ -96,6 +96,12 @@ class DlHistories(Stream):
             sc["spec"]["items"].append([L.pick_msg(rng, True).hex(), 2, 1])
             sc["kind"] = "long-message"
             scs.append(sc)
+        # legal but unusual keys: all zero, all one (0^128 is a possible KDF output)
+        for j, (ia, ea) in enumerate([(2, 2), (1, 1), (2, 1), (1, 2)] if quick else L.PAIRS + [(2, 2), (1, 1)]):
+            sc = scenario(rng, ia, ea, "octet", 4, j % 2 == 0)
+            sc["kint"], sc["kenc"] = [("00" * 16, "00" * 16), ("00" * 16, rng.bytes(16).hex()), (rng.bytes(16).hex(), "00" * 16), ("ff" * 16, "ff" * 16)][j % 4]
+            sc["kind"] = "boundary-keys"
+            scs.append(sc)
         scs += self.plain_looking(rng)
         return reference_packets(scs)
 
